@@ -65,7 +65,7 @@ def gen(rng, n, tier):
         sub = []
         for a in axes:
             lo = rng.randint(0, len(a) - 1); sub.append([lo, rng.randint(lo + 1, len(a))])
-        yield [["bucket", cls + ("/full" if closed != "none" else "")], ["cls", cls], ["axes", axes], ["freq", freq], ["ints", "T" if ints else "F"], ["closed_form", closed], ["sub", sub], ["dtype", dtype], ["sumtol", Fr(1, 10 ** 6) if dtype == "float32" else Fr(1, 10 ** 12)]]
+        yield [["bucket", cls + ("/full" if closed != "none" else "")], ["cls", cls], ["axes", axes], ["freq", freq], ["ints", "T" if ints else "F"], ["closed_form", closed], ["sub", sub], ["dtype", dtype], ["radius", rng.choice(["none", "none", Fr(2), Fr(1, 2), Fr(7)])], ["sumtol", Fr(1, 10 ** 6) if dtype == "float32" else Fr(1, 10 ** 12)]]
 
 def impl(case):
     import numpy as np, warnings
@@ -80,7 +80,10 @@ def impl(case):
         bs = [StaticBinning(np.array([[float(a), float(b)] for a, b in ax])) for ax in d["axes"]]
         shape = tuple(len(ax) for ax in d["axes"])
         fr = np.array([int(x) if d["ints"] == "T" else float(x) for x in d["freq"]], dtype=np.dtype(d.get("dtype", "int64" if d["ints"] == "T" else "float64"))).reshape(shape)
-        h = K(bs[0], fr) if len(bs) == 1 and issubclass(K, Histogram1D) else K(bs, fr)
+        kwr = {}
+        if d.get("radius", "none") != "none" and d["cls"] in ("SphericalSurfaceHistogram", "CylindricalSurfaceHistogram"):
+            kwr["radius"] = float(d["radius"])      # the measure is the one of the angular / (phi, z) coordinates, whatever the radius says
+        h = K(bs[0], fr) if len(bs) == 1 and issubclass(K, Histogram1D) else K(bs, fr, **kwr)
         nd = h.ndim
         def f(a): return [float(x) for x in np.asarray(a, dtype=float).ravel()]
         one = nd == 1
